@@ -32,10 +32,11 @@ ASSUMPTIONS = ['SCOPE: the object keeps its series and its own bookkeeping in on
                'a few of them (K compares the model, which mirrors span / index / names / dtype assignments), the oracle stops judging a '
                'history at the first one',
                'names used by operations are otherwise ordinary identifiers; '
-               '"attributes"/"strict" are used only as item-set names (rejected with KeyError since fix 216fc36)',
+               '"attributes"/"strict" are used only as item-set names (KeyError since fix 216fc36) and add_variable names '
+               '(DuplicateNameError since fix d82b358)',
                'operand cells: |ints| < 2**31, floats are half-integers or nan/+-inf, strings are not numeric literals; no object-dtype series '
                '(add_variable without dtype never receives None)',
-               'span = a Python list of ints (list.index lookup)']
+               'span = a Python list / tuple / range of ints (looked up with .index)']
 EXHAUSTIVE = {'quick': False, 'thorough': False}
 CASE_TIMEOUT = 30
 
@@ -398,7 +399,7 @@ def explain(case, obs):
 
 # --------------------------------------------------------------------------- the property, directly on observations
 def guard(case, obs):
-    """No kept finding of C09 takes inputs out of the model's reach: K is compared everywhere."""
+    """C09 has no kept finding left (partial writes: fix 5dde979, values under strict: fix 49a73ab): K is compared everywhere."""
     return False
 
 
